@@ -75,6 +75,15 @@ def generated_jobs(pid, tier, seed):
                     sets=["RandomInputHandler.number_of_root_nodes=36", "FinalTimeEndOfRunEventHandler.end_of_run_time=12",
                           "CuboidPeriodicCells.cells_per_side=3, 3, 5", "SingleProcessMediator.scheduler=list_scheduler",
                           "CoulombNearby.number_event_handlers=36", "CoulombSurplus.number_event_handlers=36"]))
+    out.append(dict(name="gen_atoms_cellbounded_negfilter", config=P + "coulomb_atoms/cell_bounded.ini", seed=seed + 22, legs=legs,
+                    sets=["SingleActiveCellOccupancy.charge=electric_charge", "ElectricChargeValues.charge_values=-1",
+                          "RandomInputHandler.number_of_root_nodes=5", "FinalTimeEndOfRunEventHandler.end_of_run_time=12",
+                          "CoulombNearby.number_event_handlers=5", "CoulombSurplus.number_event_handlers=5",
+                          "CoulombCellBounding.number_event_handlers=5"]))
+    out.append(dict(name="gen_dipoles_cellbounded_6", config=P + "dipoles/cell_bounded.ini", seed=seed + 23, legs=legs * 2,
+                    sets=["RandomInputHandler.number_of_root_nodes=6", "FinalTimeEndOfRunEventHandler.end_of_run_time=12",
+                          "CoulombNearby.number_event_handlers=6", "CoulombSurplus.number_event_handlers=6",
+                          "CoulombCellBounding.number_event_handlers=6", "Repulsive.number_event_handlers=6"]))
     out.append(dict(name="gen_atoms_cellveto_speed", config=P + "coulomb_atoms/cell_veto.ini", seed=seed + 17, legs=legs,
                     sets=["InitialChainStartOfRunEventHandler.speed=2.5", "FinalTimeEndOfRunEventHandler.end_of_run_time=6"]))
     cfgdir = os.path.join(os.path.dirname(os.path.dirname(os.path.abspath(__file__))), "harness", "configs")
